@@ -4,6 +4,7 @@ package c08
 
 import (
 	"bytes"
+	"encoding/binary"
 	"fmt"
 	"math"
 	"os"
@@ -14,6 +15,7 @@ import (
 	hdf5 "github.com/scigolib/hdf5"
 	"github.com/scigolib/hdf5/internal/core"
 	"github.com/scigolib/hdf5/internal/writer"
+	"github.com/scigolib/hdf5/verif/indep"
 	"github.com/scigolib/hdf5/verif/vt"
 	"pgregory.net/rapid"
 )
@@ -512,6 +514,7 @@ func runE2E(e E2E) vt.Verdict {
 		}
 	}
 	want := make([]float64, e.N)
+	var wantRaw []byte
 	var werr error
 	var ds *hdf5.DatasetWriter
 	if e.Type == "f64" {
@@ -519,6 +522,9 @@ func runE2E(e E2E) vt.Verdict {
 		if err == nil {
 			for i := range want {
 				want[i] = math.Float64frombits(uint64(i+e.Seed)*0x9E3779B97F4A7C15>>12 | 0x3FF0000000000000)
+			}
+			for _, x := range want {
+				wantRaw = binary.LittleEndian.AppendUint64(wantRaw, math.Float64bits(x))
 			}
 			werr = ds.Write(want)
 		}
@@ -529,6 +535,7 @@ func runE2E(e E2E) vt.Verdict {
 			for i := range v {
 				v[i] = int32(uint32(i+e.Seed) * 2654435761)
 				want[i] = float64(v[i])
+				wantRaw = binary.LittleEndian.AppendUint32(wantRaw, uint32(v[i]))
 			}
 			werr = ds.Write(v)
 		}
@@ -543,6 +550,26 @@ func runE2E(e E2E) vt.Verdict {
 	}
 	if err := fw.Close(); err != nil {
 		return vt.Bad("Close: %v", err)
+	}
+	// what the file holds, by the independent decoder: every stored chunk, taken at the size the chunk index records for
+	// it, runs back through the recorded pipeline (checksums verified) to exactly the bytes written
+	if img, err := os.ReadFile(p); err == nil {
+		ref, derr := indep.Decode(img, indep.TolerateAll())
+		if derr != nil && !indep.IsUnsupported(derr) {
+			return vt.Bad("file with filter options %v (n %d chunk %d): independent decoder: %v", e.Opts, e.N, e.Chunk, derr)
+		}
+		if ref != nil && derr == nil {
+			o := ref.Lookup("/d")
+			if o == nil || o.Kind != "dataset" {
+				return vt.Bad("file with filter options %v: independent decoder finds no dataset /d", e.Opts)
+			}
+			if o.RawErr != "" {
+				return vt.Bad("file with filter options %v (n %d chunk %d): stored chunks do not decode: %s", e.Opts, e.N, e.Chunk, o.RawErr)
+			}
+			if !bytes.Equal(o.Raw, wantRaw) {
+				return vt.Bad("file with filter options %v (n %d chunk %d): stored chunks decode to %d bytes that differ from the %d bytes written", e.Opts, e.N, e.Chunk, len(o.Raw), len(wantRaw))
+			}
+		}
 	}
 	f, err := hdf5.Open(p)
 	if err != nil {
